@@ -158,6 +158,29 @@ func genStatus(t *rapid.T) int {
 	return rapid.SampledFrom(statuses).Draw(t, "status")
 }
 
+// genVias draws how each of n pieces of body is handed to the ResponseWriter: half of the handlers only
+// call w.Write, one in six uses one other idiom throughout (io.WriteString, io.Copy, fmt.Fprint), a third
+// mixes the four piece by piece (a string preamble followed by Writes, a copied tail, ...).
+func genVias(t *rapid.T, n int) []string {
+	out := make([]string, n)
+	if n == 0 {
+		return out
+	}
+	switch rapid.IntRange(0, 5).Draw(t, "emit-mode") {
+	case 0, 1, 2:
+	case 3:
+		w := rapid.SampledFrom(emitWays[1:]).Draw(t, "emit-way")
+		for i := range out {
+			out[i] = w
+		}
+	default:
+		for i := range out {
+			out[i] = rapid.SampledFrom(emitWays).Draw(t, "emit-way")
+		}
+	}
+	return out
+}
+
 func genProgram(t *rapid.T, c Chain, method string) Program {
 	p := Program{Salt: byte(rapid.IntRange(0, 255).Draw(t, "respsalt"))}
 	st := genStatus(t)
@@ -184,8 +207,9 @@ func genProgram(t *rapid.T, c Chain, method string) Program {
 		}
 	}
 	flush("before")
+	vias := genVias(t, len(parts))
 	for i, n := range parts {
-		p.Ops = append(p.Ops, Op{Op: "write", N: n})
+		p.Ops = append(p.Ops, Op{Op: "write", N: n, Via: vias[i]})
 		if i < len(parts)-1 {
 			flush("between")
 		}
